@@ -276,6 +276,17 @@ func toAnyList[T any](in []T) []any {
 	return ret
 }
 
+// assertType is the type assertion v.(T), except that a nil value is accepted when T is an
+// interface type: nil is a valid value of every interface type (a node or condition declared
+// with an `any` or interface input may receive it), but the plain assertion never holds for it.
+func assertType[T any](v any) (T, bool) {
+	t, ok := v.(T)
+	if !ok && v == nil && generic.TypeOf[T]().Kind() == reflect.Interface {
+		return t, true
+	}
+	return t, ok
+}
+
 type assignableType uint8
 
 const (
